@@ -14,15 +14,21 @@ def mdays(y, m):
     return [31, 29 if leap(y) else 28, 31, 30, 31, 30, 31, 31, 30, 31, 30, 31][m - 1]
 
 
+def integral(v):
+    return (isinstance(v, int) and not isinstance(v, bool)) or (isinstance(v, float) and v == math.floor(v) and abs(v) < 2 ** 53)
+
+
 def wellformed(f):
-    y, mo, d, h, mi, s, ms = f
+    if not all(integral(v) for v in f):
+        return False
+    y, mo, d, h, mi, s, ms = map(int, f)
     return (1 <= mo <= 12 and 1 <= d <= mdays(y, mo) and 0 <= h <= 23 and 0 <= mi <= 59
             and 0 <= s <= 59 and 0 <= ms <= 999)
 
 
 def oracle_ms(f):
     """independent epoch milliseconds of a well-formed field list (proleptic Gregorian, no leap seconds)"""
-    y, mo, d, h, mi, s, ms = f
+    y, mo, d, h, mi, s, ms = map(int, f)
     return calendar.timegm((y, mo, d, h, mi, s)) * 1000 + ms
 
 
@@ -89,7 +95,8 @@ class P(Prop):
             "float instants up to year 2400 by class (uniform fraction, k/1000.0, fraction in [0.999,1) and [0.9995,1), 1-2^-j and 2^-j, one to a few ulps below/above a second, "
             "minute, hour, midnight, month or year boundary, interpolated t1+(t2-t1)*w, whole floats, below one day, negative = correspondence only); pairs of float instants "
             "(equal, adjacent doubles, half a millisecond / a millisecond / a second apart, unrelated) compared with all six operators and subtracted; addSec/Min/Hour/Day with "
-            "fractional, negative and int amounts; ObsTime(), ObsTime(str), readTimestamp, copy. "
+            "fractional, negative and int amounts; ObsTime(), ObsTime(str), readTimestamp, copy; sequences of 2-5 conversions evaluated one after the other in one case "
+            "(same month and day in several years, same year in several months, unrelated) so that state kept between calls shows as a self-contained input. "
             "non-trivial = not (1 January 00:00:00.000 of 1970), i.e. every case exercises at least one loop iteration or comparison")
 
     def setup(self):
@@ -197,6 +204,21 @@ class P(Prop):
         def instants(y, m, d):
             return [(0, 0, 0, 0), (12, 0, 0, 0), (23, 59, 59, 999),
                     (rng.randrange(24), rng.randrange(60), rng.randrange(60), rng.randrange(1000))]
+        # sequences of conversions on one interpreter state (a result must not depend on the calls made before):
+        # the same month/day in several years, the same year in several months, unrelated stamps. First in the list,
+        # so that a failure that needs an earlier call is reported as a self-contained case.
+        for _ in range(300 if quick else 6000):
+            c = rng.randrange(3)
+            n = rng.randrange(2, 6)
+            if c == 0:
+                m, d = rng.randrange(1, 13), rng.randrange(1, 29)
+                fs = [[rng.choice(years + [2100, 2400]), m, d] for _ in range(n)]
+            elif c == 1:
+                y, d = rng.choice(years), rng.randrange(1, 29)
+                fs = [[y, rng.randrange(1, 13), d] for _ in range(n)]
+            else:
+                fs = [self.rand_stamp(rng)[:3] for _ in range(n)]
+            out.append({"kind": "seq", "fs": [f + [rng.randrange(24), rng.randrange(60), rng.randrange(60), rng.choice([0, 0, rng.randrange(1000)])] for f in fs]})
         if tier == "thorough":
             days = [(y, m, d) for y in years for m in range(1, 13) for d in range(1, mdays(y, m) + 1)]
         else:
@@ -262,10 +284,10 @@ class P(Prop):
             out.append({"kind": "rdf", "cls": "year_edge", "x": [fbits(x) for x in xs[i:i + 20]]})
         # sampled, class by class
         for cls in self.FLOAT_CLASSES:
-            for _ in range(30 if quick else 600):
+            for _ in range(150 if quick else 1500):
                 out.append({"kind": "rdf", "cls": cls, "x": [fbits(self.rand_float(rng, cls)) for _ in range(20)]})
         # pairs of float instants: comparison operators and `-` on the stamps read from them
-        for _ in range(2500 if quick else 60000):
+        for _ in range(10000 if quick else 100000):
             x = self.rand_float(rng)
             c = rng.randrange(9)
             if c == 0:
@@ -288,7 +310,7 @@ class P(Prop):
                 y = x
             out.append({"kind": "cmpf", "x": fbits(x), "y": fbits(y)})
         # addSec/addMin/addHour/addDay with fractional, negative and int amounts
-        for _ in range(2500 if quick else 60000):
+        for _ in range(10000 if quick else 100000):
             a = self.rand_stamp(rng)
             a[6] = 0 if rng.random() < 0.6 else a[6]
             unit = rng.choice(["sec", "sec", "min", "hour", "day"])
@@ -372,6 +394,15 @@ class P(Prop):
                 t = self.T.readUnixTime(s)
                 rows.append(self.fields(t) + [round(t.toAbsTime() * 1000)])
             return {"rows": rows}
+        if k == "seq":
+            # every sequence starts from the conversions of the epoch, as a fresh interpreter's first calls would be:
+            # whatever the calls of earlier cases left behind is overwritten as far as a call can do it
+            self.T.readUnixTime(self.mk([1970, 1, 1, 0, 0, 0, 0]).toAbsTime())
+            rows = []
+            for f in case["fs"]:
+                a = self.mk(f).toAbsTime()
+                rows.append({"abs": fbits(a), "back": self.fa(self.T.readUnixTime(a))})
+            return {"rows": rows}
         if k == "cmp":
             a, b = self.mk(case["a"]), self.mk(case["b"])
             return {"ops": [int(a < b), int(a > b), int(a == b), int(a <= b), int(a >= b), int(a != b)], "sub": fbits(a - b)}
@@ -420,6 +451,8 @@ class P(Prop):
             for s in range(case["start"], case["start"] + case["n"]):
                 out.append("C03.read %d" % (s * 1000))
             return out
+        if k == "seq":
+            return ["C03.rtf " + " ".join(map(str, f)) for f in case["fs"]]
         if k == "cmp":
             ab = " ".join(map(str, case["a"] + case["b"]))
             return ["C03.cmp " + ab, "C03.subf " + ab]
@@ -455,6 +488,8 @@ class P(Prop):
             for i, r in enumerate(replies):
                 rows.append(list(map(int, r.split())) + [(case["start"] + i) * 1000])
             return {"rows": rows}
+        if k == "seq":
+            return {"rows": [{"abs": r.split()[0], "back": self.dfa(r.split(None, 1)[1])} for r in replies]}
         if k == "cmp":
             return {"ops": list(map(int, replies[0].split())), "sub": replies[1]}
         if k == "add":
@@ -557,6 +592,18 @@ class P(Prop):
                 if row[7] != s * 1000:
                     return "toAbsTime(readUnixTime(%d)) = %s ms" % (s, row[7])
             return None
+        if k == "seq":
+            for f, row in zip(case["fs"], out["rows"]):
+                m = self.check_abs(f, row["abs"], "")
+                if m:
+                    return m + " (after the conversions before it in %s)" % case["fs"]
+                b = row["back"]["f"]
+                if not wellformed(b):
+                    return "round trip of %s gives the malformed date %s" % (f, b)
+                diff = abs(oracle_ms(b) - oracle_ms(f))
+                if diff > 1 or (f[6] == 0 and b != f):
+                    return "round trip of %s gives %s (off by %d ms) after the conversions before it in %s" % (f, b, diff, case["fs"])
+            return None
         if k == "cmp":
             a, b = oracle_ms(case["a"]), oracle_ms(case["b"])
             want = self.ops_of(a, b)
@@ -625,18 +672,21 @@ class P(Prop):
                 return "%s gives %s, expected %s" % (what, got, oracle_fields(int(want * 1000)))
             return self.check_abs(got, out["res"]["abs"], "the result")
         if k == "ctor":
-            f = case["f"]
-            if out["default"]["f"] != [1970, 1, 1, 0, 0, 0, 0] or bitsf(out["default"]["abs"]) != 0.0:
-                return "ObsTime() = %s with toAbsTime() = %r, expected 01/01/1970 00:00:00.000 = 0 s" % (out["default"]["f"], bitsf(out["default"]["abs"]))
-            for name in ("ctor", "read"):
-                g = out[name]["f"] if name == "ctor" else out[name]
-                if g != f:
-                    return "%s(%r) = %s, expected %s" % ("ObsTime" if name == "ctor" else "readTimestamp", out["str"], g, f)
-            m = self.check_abs(f, out["ctor"]["abs"], "ObsTime(%r) =" % out["str"])
-            if m:
-                return m
-            if out["copy"] != f or out["copy_eq"] != [1, 0, 0] or out["orig_after"] != f:
-                return "copy() of %s: fields %s, [==, !=, is] = %s, original after changing the copy %s" % (f, out["copy"], out["copy_eq"], out["orig_after"])
+            # The property speaks about conversions and comparisons, not about parsing, defaults or aliasing: what
+            # ObsTime(str)/readTimestamp parse, what ObsTime() is and that copy() is a distinct object are checked
+            # against the model (correspondence). The oracle only asks what the statement asks of the stamps built
+            # this way: their seconds agree with the calendar, and the copy compares as its seconds do.
+            for name, o in (("ObsTime(%r)" % out["str"], out["ctor"]), ("ObsTime()", out["default"])):
+                if wellformed(o["f"]):
+                    m = self.check_abs(o["f"], o["abs"], name + " =")
+                    if m:
+                        return m
+            f, c = case["f"], out["copy"]
+            if wellformed(c):
+                same = oracle_ms(c) == oracle_ms(f)
+                if out["copy_eq"][:2] != [int(same), int(not same)]:
+                    return "t = %s, t.copy() = %s: [==, !=] give %s although their seconds since 1970 are %s" % (
+                        f, c, out["copy_eq"][:2], "equal" if same else "different")
             return None
 
     # ---------------------------------------------------------------- shrinking / search
@@ -646,6 +696,9 @@ class P(Prop):
             h = case["n"] // 2
             yield {"kind": "secs", "start": case["start"], "n": h}
             yield {"kind": "secs", "start": case["start"] + h, "n": case["n"] - h}
+        if k == "seq" and len(case["fs"]) > 1:
+            for i in range(len(case["fs"])):
+                yield {"kind": "seq", "fs": case["fs"][:i] + case["fs"][i + 1:]}
         if k == "rdf" and len(case["x"]) > 1:
             h = len(case["x"]) // 2
             yield dict(case, x=case["x"][:h])
